@@ -691,3 +691,44 @@ def run(ctx):
             ctx.tie_fail(f"consistent_{kind}_score vs model: " + why, d, str(impl[1])[:300], str(m)[:300])
     consistent_grid(ctx)
     pointwise_props(ctx, ctx.n(3, 40))
+
+
+def _unj(x):
+    """numbers come back from a replay file as strings ('3/2', 'inf', 'nan') or floats"""
+    if isinstance(x, str):
+        return float(Fr(x)) if x not in ("nan", "inf", "-inf") else float(x)
+    return x
+
+
+def _end(e):
+    return gens.da_from_repr(e) if isinstance(e, dict) else _unj(e)
+
+
+def replay(ctx, rec):
+    """./check C10 --replay <file>: re-evaluate the recorded failing input.  A recorded public-function case (correspondence or
+    negativity) is rebuilt and run through implementation and model again; every other record is reproduced by re-running the
+    deterministic check with the recorded seed and tier."""
+    import random
+    items = [rec["violation"]] if "violation" in rec else list((rec.get("no_longer_checks") or {}).get("correspondence") or [])
+    done = False
+    for v in items:
+        c = v.get("case") or {}
+        if c.get("fn") in FNS and isinstance(c.get("fcst"), dict) and "interval_where_one" in c and isinstance(c.get("obs"), (dict, float, int, str)):
+            fcst, obs = gens.da_from_repr(c["fcst"]), gens.da_from_repr(c["obs"])
+            one = tuple(_end(e) for e in c["interval_where_one"])
+            pos = None if c.get("interval_where_positive") is None else tuple(_end(e) for e in c["interval_where_positive"])
+            param = None if c.get("param") is None else Fr(str(c["param"]))
+            w = None if c.get("weights") is None else gens.da_from_repr(c["weights"])
+            impl = call_tw(c["fn"], fcst, obs, param, one, pos, c.get("reduce_dims"), c.get("preserve_dims"), w)
+            m = model_tw(ctx, c["fn"], fcst, obs, param, one, pos, c.get("reduce_dims"), c.get("preserve_dims"), w)
+            ok, why = core.compare_result(impl, m)
+            ctx.case(("replay", repr(c)))
+            if not ok:
+                ctx.tie_fail(c["fn"] + " vs model (replay): " + why, c, str(impl[1])[:300], str(m)[:300])
+            elif impl[0] == "ok" and w is None and (np.asarray(impl[1], dtype=float)[np.isfinite(np.asarray(impl[1], dtype=float))] < -1e-12).any():
+                ctx.violation("negative threshold-weighted score (replay)", c, ">= 0", float(np.nanmin(np.asarray(impl[1], dtype=float))))
+            done = True
+    if not done:
+        ctx.rng = random.Random(rec.get("seed", ctx.seed))
+        ctx.tier = rec.get("tier", ctx.tier)
+        run(ctx)
